@@ -102,7 +102,13 @@ namespace c12
       const unsigned long b = (unsigned long)( c.m_begin.data - base ) & 0xffUL;
       const unsigned long e = c.has_content() ? ( (unsigned long)( c.m_end.data - base ) & 0xffUL ) : 0xffUL;
       const unsigned long nc = c.children.size() & 0xffUL;
+#ifdef C12_EXP_PACK1
+      return ( 1UL << 63 );
+#elif defined( C12_EXP_PACK2 )
+      return ( 1UL << 63 ) | id;
+#else
       return ( 1UL << 63 ) | id | ( tid << 16 ) | ( b << 32 ) | ( e << 40 ) | ( nc << 48 );
+#endif
    }
 
    template< int D, typename Types >
@@ -194,7 +200,37 @@ namespace c12
       out[ 1 ] = in.byte();
    }
 
+   // the same parse with the pieces of parse_tree::parse() spelled out, so that the builder can be inspected after a run that
+   // produced no tree:  out[0] result, out[1] cursor, out[2] exception id, out[3] entries left on the builder stack,
+   // out[4] children hanging below the bottom entry (the root), out[5] 1 if the bottom entry is a root node
+   template< typename Rule, template< typename... > class Selector, template< typename... > class Action >
+   inline void run_stack( const char* b, unsigned long n, unsigned long start, unsigned long* out )
+   {
+      vf::eager_in in( b, b + n, "" );
+      in.bump_in_this_line( start );
+      out[ 2 ] = 0;
+      parse_tree::internal::state< tnode > st;
+      try {
+         out[ 0 ] = tao::pegtl::parse< Rule, Action, parse_tree::internal::make_control< tnode, Selector, vf::vcontrol >::template type >( in, st ) ? 1 : 0;
+      }
+      catch( const vf::verif_exc& e ) {
+         out[ 0 ] = 2;
+         out[ 2 ] = e.id;
+      }
+      catch( const vf::foreign_exc& e ) {
+         out[ 0 ] = 3;
+         out[ 2 ] = e.id;
+      }
+      out[ 1 ] = in.byte();
+      out[ 3 ] = st.stack.size();
+      out[ 4 ] = st.stack.empty() ? 99 : st.stack.front()->children.size();
+      out[ 5 ] = st.stack.empty() ? 0 : ( st.stack.front()->is_root() ? 1 : 0 );
+   }
+
 }  // namespace c12
+
+#define C12_WRAP_STACK( name, Rule, Selector, Action )                                                                                              \
+   extern "C" __attribute__( ( noinline ) ) void name##_stack( const char* b, unsigned long n, unsigned long s, unsigned long* o ) { c12::run_stack< Rule, Selector, Action >( b, n, s, o ); }
 
 #define C12_WRAP( name, Rule, Selector, Action, Types )                                                                                              \
    extern "C" __attribute__( ( noinline ) ) void name( const char* b, unsigned long n, unsigned long s, unsigned long* o ) { c12::run_tree< Rule, Selector, Action, Types >( b, n, s, o ); } \
